@@ -25,7 +25,7 @@ RULE = (
     "(line-up, cut labelling)."
 )
 ASSUMPTIONS = ["cheap sampler classes only (order, not numerics, is at stake)", "the RL scheduler cannot be checkpointed (known finding under C04): RL runs use no restore"]
-REQUIRED_COUNTERS = {"rl_runs_with_a_zero_loss": 5, "rr_batches": 400, "rr_runs": 80, "rr_restores": 40, "rl_batches": 60, "rl_sessions": 25, "ctor_combinations": 8}
+REQUIRED_COUNTERS = {"rr_failed_batches_then_retry": 10, "rl_runs_with_a_zero_loss": 5, "rr_batches": 400, "rr_runs": 80, "rr_restores": 40, "rl_batches": 60, "rl_sessions": 25, "ctor_combinations": 8}
 SHARDS = {"quick": 16, "thorough": 16}
 SHARD_WATCHDOG = {"quick": 1500, "thorough": 10800}
 
@@ -73,6 +73,19 @@ def run_rr(desc, ctx, out):
         order = []
         try:
             for k, m in enumerate(parts):
+                if k > 0 and rng.random() < 0.25:
+                    # a batch fails (the model raises once) and the user simply calls calibrate() again: the schedule must not shift
+                    from vlib import models as MM
+
+                    good = cal.model
+                    cal.model = MM.FailAtCall(cfg["D"], 0)
+                    try:
+                        with quiet():
+                            cal.calibrate(1)
+                    except MM.InjectedFault:
+                        c["rr_failed_batches_then_retry"] = c.get("rr_failed_batches_then_retry", 0) + 1
+                    finally:
+                        cal.model = good
                 with CM.RunMonitor(cal, snapshots=False) as mon:
                     with quiet():
                         cal.calibrate(m)
